@@ -214,7 +214,7 @@ Definition RI (w : world) : Prop := Inv w (ytoks (w_tokens w)).
 
 Lemma handle_event_tokens w e w' ys : handle_event BUF w e = inl (w', ys) -> w_tokens w' = w_tokens w.
 Proof.
-  destruct e as [fd|fd|fd kk|nf|]; cbn [Server.handle_event].
+  destruct e as [fd|fd kk|fd kk|nf|]; cbn [Server.handle_event].
   - destruct (alookup fd (w_conns w)); [|discriminate]. intros H; inversion H; reflexivity.
   - destruct (alookup fd (w_conns w)) as [x|]; [|discriminate]. destruct (cc_read BUF x _) as [[y rs]|]; [|discriminate].
     intros H; inversion H; reflexivity.
